@@ -193,9 +193,9 @@ Definition start_count (prev : bytes) : N := N.of_nat (length prev - header_offs
 
 (* writeln!(target) unless the previous bytes are empty or end with a newline *)
 Definition separator (prev : bytes) : bytes :=
-  match rev prev with
+  match prev with
   | [] => []
-  | b :: _ => if byte_eqb b x0a then [] else [x0a]
+  | _ => if byte_eqb (last prev x00) x0a then [] else [x0a]
   end.
 
 Inductive inc_status := IncOk | IncInvalidMark | IncPanic.
